@@ -214,3 +214,37 @@ def first_diff(a, b, path=""):
 def _short(x):
     s = repr(x)
     return s if len(s) < 160 else s[:157] + "..."
+
+
+# ---------------------------------------------------------------------------
+# M-TRANS: which parser transitions a workload actually drove (evidence only)
+# ---------------------------------------------------------------------------
+TRANSITIONS = set()
+_trans_installed = False
+
+
+def install_transition_recorder():
+    """Wrap the parser's state functions (name-mangled; a missing one is skipped) and
+    record distinct (state function, token type, outcome) triples."""
+    global _trans_installed
+    if _trans_installed:
+        return
+    _trans_installed = True
+    cls = sl_parser.Parser
+    for short in ("command", "arguments", "argument", "stringlist"):
+        name = "_Parser__" + short
+        fn = getattr(cls, name, None)
+        if fn is None:
+            continue
+
+        def make(fn, short):
+            def wrapper(self, ttype, tvalue):
+                try:
+                    r = fn(self, ttype, tvalue)
+                except Exception as e:
+                    TRANSITIONS.add("%s/%s/raise:%s" % (short, ttype, type(e).__name__))
+                    raise
+                TRANSITIONS.add("%s/%s/%s" % (short, ttype, r))
+                return r
+            return wrapper
+        setattr(cls, name, make(fn, short))
